@@ -1356,7 +1356,7 @@ impl Gen {
             typ_w = [30, 30, 0, 0, 0, 0];
         }
         let cfg = GenCfg {
-            max_ops: if thorough { c.range(20, 400) as usize } else { c.range(8, 60) as usize },
+            max_ops: if crate::common::long_run(seed, tier) { if thorough { c.range(300, 1500) as usize } else { c.range(200, 600) as usize } } else if thorough { c.range(20, 400) as usize } else { c.range(8, 60) as usize },
             w,
             typ_w,
             eager_only: c.one_in(4),
@@ -1558,7 +1558,11 @@ impl Engine for E3 {
         let root = Rng::new(seed);
         let mut w = root.fork("world");
         let mut st = WorldStats::default();
-        let cfg = broker_world(tier);
+        let mut cfg = broker_world(tier);
+        if crate::common::long_run(seed, tier) {
+            cfg.n_min = 100;
+            cfg.n_max = if tier == Tier::Thorough { 800 } else { 300 };
+        }
         let dataset = gen_dataset(&mut w, "fake", &cfg, &mut st);
         let path = if w.one_in(4) { Path::Json } else { Path::Direct };
         let single = w.one_in(2);
